@@ -268,20 +268,11 @@ Proof.
 Qed.
 
 (* indicator targets and bounds *)
-Lemma live_direct_holds st e c :
-  sat e (initialize st) -> In c (ps_cons st) -> mandatory_live c = true ->
-  forall f, In f (enc_direct (c_expr c)) -> feval e f = true.
-Proof.
-  intros Hs Hin Hl f Hf. apply sat_initialize in Hs as (_ & _ & Hc & _).
-  unfold mandatory_live in Hl. apply andb_true_iff in Hl as [Ho Hfl]. apply negb_true_iff in Hfl.
-  apply (Hc c Hin Hfl). unfold conrec_asserts, enc_cons. apply in_or_app. now right.
-Qed.
-
-Lemma ind_cons_sound e x :
-  (forall f, In f (enc_direct x) -> feval e f = true) ->
+Lemma ind_cons_sound e c x :
+  (forall f, In f (enc_raw c x) -> feval e f = true) ->
   forall k f, In (k, f) (spec_C08_cons x) -> feval e f = true.
 Proof.
-  intros H k f Hin. destruct x; cbn [spec_C08_cons] in Hin; try (destruct Hin; fail); cbn [enc_direct] in H.
+  intros H k f Hin. destruct x; cbn [spec_C08_cons] in Hin; try (destruct Hin; fail); cbn [enc_raw] in H.
   - destruct Hin as [[= <- <-]|[]]. apply H. now left.
   - destruct lo as [l|], hi as [h|]; cbn [app] in *;
       repeat match goal with Hin : In _ (_ :: _) |- _ => destruct Hin as [[= <- <-]|Hin] | Hin : In _ [] |- _ => destruct Hin end.
@@ -300,5 +291,5 @@ Proof.
   - unfold per_cons in Hin. apply in_flat_map in Hin as (c & Hc & Hin).
     destruct (mandatory_live c) eqn:Hl; [|destruct Hin].
     apply in_map_iff in Hin as ([k' f'] & [= <- <-] & Hin).
-    eapply ind_cons_sound; [|exact Hin]. intros g Hg. eapply live_direct_holds; eauto.
+    eapply (ind_cons_sound e (c_id c)); [|exact Hin]. intros g Hg. eapply live_raw_holds; eauto.
 Qed.
